@@ -202,25 +202,13 @@ func ParseSPSNALUnit(data []byte, parseVUIBeyondAspectRatio bool) (*SPS, error) 
 	}
 	sps.Direct8x8InferenceFlag = reader.ReadFlag()
 	sps.FrameCroppingFlag = reader.ReadFlag()
-	var cropUnitX, cropUnitY uint
-	var frameMbsOnly uint = 0
-	if sps.FrameMbsOnlyFlag {
-		frameMbsOnly = 1
-	} else { // Interlaced so the height should be doubled
+	if !sps.FrameMbsOnlyFlag { // Interlaced so the height should be doubled
 		sps.Height *= 2
 	}
 	if sps.FrameCroppingFlag {
-		switch sps.ChromaFormatIDC {
-		case 0:
-			cropUnitX, cropUnitY = 1, 2-frameMbsOnly
-		case 1:
-			cropUnitX, cropUnitY = 2, 2*(2-frameMbsOnly)
-		case 2:
-			cropUnitX, cropUnitY = 2, 1*(2-frameMbsOnly)
-		case 3: //This lacks one extra check?
-			cropUnitX, cropUnitY = 1, 1*(2-frameMbsOnly)
-		default:
-			return nil, fmt.Errorf("non-vaild chroma_format_idc value: %d", sps.ChromaFormatIDC)
+		cropUnitX, cropUnitY, err := sps.cropUnits()
+		if err != nil {
+			return nil, err
 		}
 
 		sps.FrameCropLeftOffset = reader.ReadExpGolomb()
@@ -243,6 +231,41 @@ func ParseSPSNALUnit(data []byte, parseVUIBeyondAspectRatio bool) (*SPS, error) 
 	sps.NrBytesRead = reader.NrBytesRead()
 
 	return sps, reader.AccError()
+}
+
+// cropUnits returns CropUnitX and CropUnitY.
+func (s *SPS) cropUnits() (cropUnitX, cropUnitY uint, err error) {
+	var frameMbsOnly uint = 0
+	if s.FrameMbsOnlyFlag {
+		frameMbsOnly = 1
+	}
+	switch s.ChromaFormatIDC {
+	case 0:
+		cropUnitX, cropUnitY = 1, 2-frameMbsOnly
+	case 1:
+		cropUnitX, cropUnitY = 2, 2*(2-frameMbsOnly)
+	case 2:
+		cropUnitX, cropUnitY = 2, 1*(2-frameMbsOnly)
+	case 3: //This lacks one extra check?
+		cropUnitX, cropUnitY = 1, 1*(2-frameMbsOnly)
+	default:
+		return 0, 0, fmt.Errorf("non-vaild chroma_format_idc value: %d", s.ChromaFormatIDC)
+	}
+	return cropUnitX, cropUnitY, nil
+}
+
+// picSizeInMapUnits returns PicSizeInMapUnits = PicWidthInMbs * PicHeightInMapUnits (Section 7.4.2.1.1)
+func (s *SPS) picSizeInMapUnits() uint {
+	width, height := s.Width, s.Height // add what was cropped to get the coded size
+	if cropUnitX, cropUnitY, err := s.cropUnits(); err == nil {
+		width += (s.FrameCropLeftOffset + s.FrameCropRightOffset) * cropUnitX
+		height += (s.FrameCropTopOffset + s.FrameCropBottomOffset) * cropUnitY
+	}
+	picHeightInMapUnits := height / 16
+	if !s.FrameMbsOnlyFlag {
+		picHeightInMapUnits /= 2
+	}
+	return (width / 16) * picHeightInMapUnits
 }
 
 // CpbDbpDelaysPresent signals if Cpb and Dbp can be found in Picture Timing SEI
